@@ -15,6 +15,36 @@ def _atoms_names(d):
 
 
 # ------------------------------------------------------------------------------------------------ C02 / C01
+FRACTION_STRINGS = [
+    ("(CaO)0.3(SiO2)0.7", {"Ca": 0.3, "Si": 0.7, "O": 1.7}), ("CaSO4(H2O)0.5", {"Ca": 1, "S": 1, "O": 4.5, "H": 1}),
+    ("0.5Fe2O3", {"Fe": 1, "O": 1.5}), ("Co(H2O)0.5", {"Co": 1, "H": 1, "O": 0.5}),
+    ("(Gd2O3)0.1(Y2O3)0.9", {"Gd": 0.2, "Y": 1.8, "O": 3}), ("0.25SiO2 + 0.75GeO2", {"Si": 0.25, "Ge": 0.75, "O": 2}),
+    ("(CH2)0.75(CD2)0.25", {"C": 1, "H": 1.5, "H[2]": 0.5}), ("Na2SO4(H2O)10", {"Na": 2, "S": 1, "O": 14, "H": 20}),
+    ("((H2O)2Na)3Cl", {"H": 12, "O": 6, "Na": 3, "Cl": 1}), ("Fe4(Fe(CN)6)3", {"Fe": 7, "C": 18, "N": 18}),
+    ("Ca3((PO4)2)2", {"Ca": 3, "P": 4, "O": 16}), ("(Ca(OH)2)3", {"Ca": 3, "O": 6, "H": 6}), ("Li(Fe2O3)0.05", {"Li": 1, "Fe": 0.1, "O": 0.15}),
+]
+
+
+def _fraction_strings(R, prop):
+    """strings whose group multipliers are fractions (also below one) or nested: counts multiply through every level"""
+    import periodictable as pt
+    from periodictable.formulas import formula
+    for text, want in FRACTION_STRINGS:
+        R.ok(2, ("fraction-string", text))
+        f = formula(text)
+        got = {nat.atom_name(a): n for a, n in f.atoms.items()}
+        if set(got) != set(want) or any(not close(got[k], want[k], 1e-12) for k in want):
+            R.violation("%s:group_multiplier:%s" % (prop, text), "atom counts of %r are not the counts read off the string (every multiplier, also a fraction "
+                        "below one, multiplies its whole group, through every nesting level)" % text, {"string": text}, got, want)
+            continue
+        for g, what in ((3 * f, "3*f"), (f.hill, "hill"), (formula(f.atoms), "formula(atoms)")):
+            k = 3 if what == "3*f" else 1
+            gg = {nat.atom_name(a): n for a, n in g.atoms.items()}
+            if set(gg) != set(want) or any(not close(gg[x], k * want[x], 1e-12) for x in want):
+                R.violation("%s:group_multiplier:%s:%s" % (prop, what, text), "%s of %r has other atom counts than the string spells" % (what, text),
+                            {"string": text}, gg, {x: k * v for x, v in want.items()})
+
+
 def _aliasing(R, texts, prop):
     import periodictable as pt
     from periodictable.formulas import formula
@@ -64,6 +94,7 @@ def task_C02(tier, seed, arg):
         s = nat.random_structure(rng, pool, depth=2)
         texts.append(s)
     _aliasing(R, texts, "C02")
+    _fraction_strings(R, "C02")
     # an ion and the same ion of one isotope are different atoms with different masses
     K = pt.constants.electron_mass
     for el, iso, q in (("Fe", 57, 3), ("H", 2, 1), ("Li", 6, 1), ("Cl", 37, -1), ("O", 18, -2)):
@@ -209,6 +240,21 @@ def task_C12(tier, seed, arg):
             if not close(g.density, 1.0 / r, 1e-12) or not close(g.natural_density, 1.0, 1e-12):
                 R.violation("C12:stale_density:%s" % first, "alternating assignments leave density/natural_density inconsistent", {"formula": text},
                             [g.density, g.natural_density], [1.0 / r, 1.0])
+    # natural_density= / density= by keyword for every kind of initializer (string, atom object, dict, sequence, Formula)
+    for atom in (pt.D, pt.Fe[56], pt.O[18], pt.Li[6], pt.Fe[54].ion[3], pt.Ni):
+        nm = nat.atom_name(atom)
+        inits = {"atom": atom, "dict": {atom: 2}, "sequence": [(2, atom)], "nested": [(1, [(3, atom)])], "formula": formula([(1, atom)]), "string": nm}
+        for kind, init in inits.items():
+            R.ok(2, ("keyword-init", nm, kind))
+            f = formula(init, natural_density=2.5)
+            r = ratio(f)
+            if f.density is None or not close(f.density, 2.5 / r, 1e-12) or not close(f.natural_density, 2.5, 1e-12):
+                R.violation("C12:natural_density_keyword:%s" % kind, "formula(<%s>, natural_density=2.5): density is not natural_density / ratio "
+                            "(%s)" % (kind, nm), {"atom": nm, "kind": kind}, [f.density, f.natural_density], [2.5 / r, 2.5])
+            g = formula(init, density=3.5)
+            if g.density is None or not close(g.density, 3.5, 1e-12) or not close(g.natural_density, 3.5 * r, 1e-12):
+                R.violation("C12:density_keyword:%s" % kind, "formula(<%s>, density=3.5): natural_density is not density * ratio (%s)" % (kind, nm),
+                            {"atom": nm, "kind": kind}, [g.density, g.natural_density], [3.5, 3.5 * r])
     for atom in (pt.Fe, pt.D, pt.O, pt.Fe.ion[2], pt.Fe[56]):
         nm = nat.atom_name(atom)
         spell = [nm, "2" + nm, "0.5" + nm, nm + "2", "(%s)2" % nm, nm + nm, "%s2 %s" % (nm, nm), "%s + %s" % (nm, nm), "((%s)2)3" % nm]
@@ -325,6 +371,39 @@ def task_C15(tier, seed, arg):
             if t == 0 and A0 > A0 * frac:
                 R.violation("C15:zero_for_weak_sample", "decay_time returns 0 although the activity at removal (%.3g uCi) is above the target" % A0,
                             {"formula": ftxt, "mass": m, "fraction": frac}, t, "> 0")
+    # formulas that name specific isotopes, activated with rest lists other than the default one: every product carries one
+    # activity per requested rest time, and the answer does not depend on which rest times were requested
+    env = act.ActivationEnvironment(fluence=1e8, Cd_ratio=70, fast_ratio=50)
+    for ftxt in ("Cu[63]", "Co[59]Cu[65]", "Au[197]Fe", "Na[23]Cl", "Eu[151]2O3", "Li[6]Co[59]O2"):
+        ref = act.Sample(ftxt, 1.0)
+        ref.calculate_activation(env, exposure=5, rest_times=(0,))
+        if not ref.activity:
+            continue
+        A0 = sum(v[0] for v in ref.activity.values())
+        tref = None
+        for rest2 in ((0,), (0, 2), (0, 1, 24, 360), (0, 5, 50, 500, 5000), (12, 0, 0.5), (0, 1e-3)):   # lists without 0: known finding (c15 sample)
+            s = act.Sample(ftxt, 1.0)
+            s.calculate_activation(env, exposure=5, rest_times=rest2)
+            R.ok(2, ("isotope-formula", ftxt, rest2))
+            badlen = [str(k) for k, v in s.activity.items() if len(v) != len(rest2)]
+            if badlen:
+                R.violation("C15:rest_times:activity_length", "after calculate_activation(rest_times=%r) a product of %s carries %d activities, "
+                            "not one per rest time" % (rest2, ftxt, len(s.activity[[k for k in s.activity if str(k) in badlen][0]])),
+                            {"formula": ftxt, "rest_times": list(rest2)}, badlen[:3], len(rest2))
+                continue
+            try:
+                t = s.decay_time(A0 * 0.01)
+            except RuntimeError:
+                continue
+            tot = sum(v[0] * 2 ** (-t / k.Thalf_hrs) for k, v in ref.activity.items())
+            if not close(tot, A0 * 0.01, 1.5e-3):
+                R.violation("C15:rest_times:accuracy", "decay_time after rest_times=%r is not within 0.1%% of the target for %s" % (rest2, ftxt),
+                            {"formula": ftxt, "rest_times": list(rest2)}, tot, A0 * 0.01)
+            if tref is None:
+                tref = t
+            elif not close(t, tref, 1e-3, 1e-6):
+                R.violation("C15:rest_times:dependence", "decay_time of %s depends on which rest times were requested" % ftxt,
+                            {"formula": ftxt, "rest_times": list(rest2)}, t, tref)
     return R.done()
 
 
@@ -362,8 +441,42 @@ def task_C04(tier, seed, arg):
     import periodictable as pt
     from periodictable import nsf
     from periodictable.formulas import formula
+    R0 = None
     R = Result("Formula.neutron_sld(energy=/wavelength=) (deprecated method) equals nsf.neutron_sld on the same formula, scalar and "
                "vector, for compounds with energy-dependent atoms; float64 wavelength arrays beyond the table ends are not modified", False)
+    # regrouped spellings (fractional and nested multipliers) against the flat spelling at the same density
+    for text, want in FRACTION_STRINGS:
+        flat = formula({(pt.H[2] if k == "H[2]" else getattr(pt, k)): v for k, v in want.items()})
+        R.ok(1, ("regrouped", text))
+        a = nsf.neutron_scattering(text, density=2.5, wavelength=1.8)
+        b = nsf.neutron_scattering(flat, density=2.5, wavelength=1.8)
+        ok = all(np.allclose(np.asarray(x, dtype=float), np.asarray(y, dtype=float), rtol=1e-10, atol=0) for x, y in zip(a[0] + a[1] + (a[2],), b[0] + b[1] + (b[2],)))
+        if not ok:
+            R.violation("C04:regrouped_string:%s" % text, "neutron_scattering of %r differs from the flat formula with the same atoms at the same density" % text,
+                        {"string": text}, [float(x) for x in a[0]], [float(x) for x in b[0]])
+    # the same composition per unit mass reached through the composite calculator (a regrouping of the same atoms, also with
+    # fragments of weight zero), and its density scaling; scalar wavelengths only
+    frags = [formula("HSO4"), formula("H2O"), formula("CCl4"), formula("Gd2O3")]
+    for w in ([3.0, 0.0, 2.0, 0.0], [1.0, 2.0, 0.0, 0.5], [0.0, 0.0, 0.0, 2.0], [0.5, 0.25, 4.0, 1.0]):
+        for lam in (1.8, 4.75):
+            R.ok(1, ("composite", tuple(w), lam))
+            calc = nsf.neutron_composite_sld(frags, wavelength=lam)
+            total = formula()
+            for wi, m in zip(w, frags):
+                total = total + wi * m
+            got1 = calc(np.array(w), density=1.3)
+            got2 = calc(np.array(w), density=2.6)
+            exp = nsf.neutron_sld(total, density=1.3, wavelength=lam)
+            if got1 is None or exp is None or any(x is None for x in tuple(got1) + tuple(exp)):
+                R.violation("C04:composite_regrouping:none", "the composite calculator / neutron_sld returned None for fragments with neutron data",
+                            {"weights": w, "wavelength": lam}, repr(got1), repr(exp))
+                continue
+            if not all(close(float(g), float(e), 1e-9, 0.0) for g, e in zip(got1, exp)):
+                R.violation("C04:composite_regrouping", "the composite calculator at weights %r is the same composition per unit mass as the summed "
+                            "formula but gives another SLD" % (w,), {"weights": w, "wavelength": lam}, [float(x) for x in got1], [float(x) for x in exp])
+            if not all(close(float(b), 2 * float(a), 1e-9, 0.0) for a, b in zip(got1, got2)):
+                R.violation("C04:composite_density_scaling", "doubling the density does not double the composite SLD at weights %r" % (w,),
+                            {"weights": w, "wavelength": lam}, [float(x) for x in got2], [2 * float(x) for x in got1])
     for text, rho in (("Gd2O3", 7.4), ("Sm2O3", 8.3), ("Eu2O3", 7.4), ("H2O", 1.0), ("Lu[176]2O3", 9.4), ("Er2O3", 8.6)):
         f = formula(text, density=rho)
         for lam in (0.8, 1.798, 4.0, np.array([0.5, 1.0, 12.0]), [0.3, 9.0]):
@@ -471,6 +584,36 @@ def task_C17(tier, seed, arg):
             R.violation("C17:scalar_wavelength_type:%s" % type(lam).__name__, "a scalar wavelength of type %s must give scalar outputs equal to the direct "
                         "calculation" % type(lam).__name__, {"wavelength": float(lam), "type": type(lam).__name__},
                         [np.asarray(g).tolist() for g in got], [float(e) for e in exp])
+    # a vector of wavelengths is a vector whatever its element type or memory layout (integer-valued grids such as np.arange,
+    # float32, tuples, descending or strided views): entry i equals the direct calculation at float(wavelength_i)
+    mats4 = [formula("H2O"), formula("Gd2O3"), formula("SiO2"), formula("Sm2O3")]
+    w4 = np.array([1.0, 0.25, 2.0, 0.5])
+    total4 = formula()
+    for wi, m in zip(w4, mats4):
+        total4 = total4 + wi * m
+    for tname, lam in _typed(None):
+        if np.ndim(lam) != 1:
+            continue
+        R.ok(1, ("vector-type", tname))
+        flat = [float(x) for x in np.asarray(lam)]
+        try:
+            got = nsf.neutron_composite_sld(mats4, wavelength=lam)(w4, density=2.0)
+        except Exception as e:
+            R.violation("C17:vector_wavelength_type:%s:exception" % tname, "a wavelength vector of kind %s makes the calculator raise %s: %s"
+                        % (tname, type(e).__name__, str(e)[:160]), {"wavelength": flat, "type": tname})
+            continue
+        exp = [nsf.neutron_sld(total4, density=2.0, wavelength=x) for x in flat]
+        if got is None or any(g is None for g in got) or any(e is None or any(x is None for x in e) for e in exp):
+            R.violation("C17:none_for_materials_with_data", "every atom of the materials (H, O, Si, Gd and natural Sm, whose tabulated b_c is exactly 0) "
+                        "has neutron data, yet the calculator / the direct calculation returns None", {"wavelength": flat, "type": tname},
+                        repr(got)[:120], repr(exp[0])[:120])
+            continue
+        ok = all(np.shape(g) == (len(flat),) for g in got) and all(
+            close(float(np.asarray(g)[i]), float(exp[i][k]), 1e-5 if "float32" in tname else 1e-9) for k, g in enumerate(got) for i in range(len(flat)))
+        if not ok:
+            R.violation("C17:vector_wavelength_type:%s" % tname, "a wavelength vector of kind %s must give vectors whose entries equal the direct "
+                        "calculation at each wavelength" % tname, {"wavelength": flat, "type": tname},
+                        [np.asarray(g).tolist() for g in got], [[float(e[k]) for e in exp] for k in range(3)])
     return R.done()
 
 
@@ -505,6 +648,25 @@ def task_C11(tier, seed, arg):
         R.ok(1, (s,))
         if not close(f.density, inner.density, 1e-12):
             R.violation("C11:grouped_mixture_natural_density", "'( mixture )@<d>n' must set the NATURAL density of the mixture", s, f.density, inner.density)
+    # name= / density= / natural_density= given together with a string that states absolute amounts: the amount stays recorded,
+    # the atoms stay those of the plain call
+    for text, attr in (("2g Co // 2g Ti", "total_mass"), ("5g NaCl // 50mL H2O@1", "total_mass"), ("1mm Fe // 1mm Ni", "thickness"),
+                       ("50 nm Co // 150 nm Ti", "thickness"), ("2 mg Fe // 10 mg Ni // 1 mg Co", "total_mass")):
+        plain = formula(text)
+        for kw in ({"name": "sample"}, {"density": 3.25}, {"natural_density": 2.5}, {"name": "s", "density": 1.5}):
+            R.ok(2, (text, tuple(sorted(kw))))
+            g = formula(text, **kw)
+            got, want = getattr(g, attr, None), getattr(plain, attr, None)
+            if want is None or got is None or not close(got, want, 1e-12):
+                R.violation("C11:amount_with_keywords:%s:%s" % (attr, "+".join(sorted(kw))), "formula(%r, %s) no longer records the stated absolute amount (%s)"
+                            % (text, ", ".join("%s=..." % k for k in sorted(kw)), attr), {"string": text, "keywords": kw}, got, want)
+            if not nat.maps_close(_atoms_names(g.atoms), _atoms_names(plain.atoms)):
+                R.violation("C11:atoms_with_keywords:%s" % "+".join(sorted(kw)), "formula(%r, %s) has other atoms than formula(%r)" % (text, kw, text),
+                            {"string": text, "keywords": kw}, _atoms_names(g.atoms), _atoms_names(plain.atoms))
+            if "name" in kw and g.name != kw["name"]:
+                R.violation("C11:name_keyword", "the name= keyword is not recorded", {"string": text, "keywords": kw}, g.name, kw["name"])
+            if "density" in kw and not close(g.density, kw["density"], 1e-12):
+                R.violation("C11:density_keyword", "the density= keyword is not the density of the result", {"string": text, "keywords": kw}, g.density, kw["density"])
     return R.done()
 
 
